@@ -23,7 +23,7 @@ def run(pid, tier, seed):
     ncr = 8 if tier == "quick" else 16
     pool = 14 if tier == "quick" else 90
     chk.rule = ("presentation groups (gen/presgen.py): for every non-recursive generated type F (structs, enums in every representation, "
-                "instantiated generics) and containers of it (Option, Vec, HashMap value, Box, arrays of 0..3 and 63..65 elements), parents of three shapes (named struct, "
+                "instantiated generics) and containers of it (Option, Vec, HashMap value, Box, arrays of 0..3 and 63..65 elements), parents of four shapes (named struct, tagged struct whose only member is the field, "
                 "newtype, struct variant) present one field of type F by name / #[ts(inline)] / #[ts(flatten)] (object-like F) / "
                 "#[ts(as = \"F\")] on a field of another type / container-level as; plus inlined-inside-flattened and vice versa. Oracle "
                 "(tsmodel, bounded mutual inclusion of enumerated inhabitants): by-name ~ inline; flatten ~ `{ own } & (F)` built by the model; "
